@@ -466,10 +466,13 @@ Open Scope Z_scope.
 (* The module-level state of the package that survives between assemblies:
    try_compute.depth, try_compute.not_ready_yet (the identities it holds: [nry]),
    Awaiting.awaiting_stack, handle_reports.handlers_stack (top of stack = head)
+   Awaiting.known_cycles / Awaiting.found_cycles_stack (a memo of values found to run into what is being computed),
    and the is_awaiting flag of every deferred object (identified by a number).
    not_ready_yet maps id(obj) to obj itself: the entry keeps the object alive, so an id cannot be
    reused by another object while it is in the dict (checked shape: `[id(self)] = self`). *)
-Record gstate := mk_gstate { depth : Z; awaiting : list N; flags : N -> bool; handlers : list N; nry : list N }.
+Record gstate := mk_gstate { depth : Z; awaiting : list N; flags : N -> bool; handlers : list N; nry : list N;
+                             kc : list N;            (* Awaiting.known_cycles: the identities it holds *)
+                             fcs : list (list N) }.  (* Awaiting.found_cycles_stack, top = head; each list in append order *)
 
 Inductive step_result := SOk (s : gstate) | SRaise (e : exn) (s : gstate).
 Definition sbind (r : step_result) (f : gstate -> step_result) : step_result :=
@@ -477,30 +480,48 @@ Definition sbind (r : step_result) (f : gstate -> step_result) : step_result :=
 
 (* primitive effects, one per recognised python statement *)
 Definition add_depth (k : Z) (s : gstate) : step_result :=
-  SOk (mk_gstate (depth s + k) (awaiting s) (flags s) (handlers s) (nry s)).
+  SOk (mk_gstate (depth s + k) (awaiting s) (flags s) (handlers s) (nry s) (kc s) (fcs s)).
 (* if self.depth == 0: self.not_ready_yet = {} *)
 Definition reset_nry_at_depth0 (s : gstate) : step_result :=
-  SOk (mk_gstate (depth s) (awaiting s) (flags s) (handlers s) (if depth s =? 0 then [] else nry s)).
+  SOk (mk_gstate (depth s) (awaiting s) (flags s) (handlers s) (if depth s =? 0 then [] else nry s) (kc s) (fcs s)).
 Definition set_flag (d : N) (b : bool) (s : gstate) : step_result :=
-  SOk (mk_gstate (depth s) (awaiting s) (fun x => if N.eqb x d then b else flags s x) (handlers s) (nry s)).
-(* if self.deferred.is_awaiting: raise DeferredCycle() *)
+  SOk (mk_gstate (depth s) (awaiting s) (fun x => if N.eqb x d then b else flags s x) (handlers s) (nry s) (kc s) (fcs s)).
+(* if self.deferred.is_awaiting or id(self.deferred) in Awaiting.known_cycles: raise DeferredCycle() *)
+Definition kc_mem (d : N) (s : gstate) : bool := existsb (N.eqb d) (kc s).
 Definition guard_not_awaiting (d : N) (s : gstate) : step_result :=
-  if flags s d then SRaise EDeferredCycle s else SOk s.
+  if flags s d || kc_mem d s then SRaise EDeferredCycle s else SOk s.
+(* Awaiting.found_cycles_stack.append([]) *)
+Definition push_cycles_frame (s : gstate) : step_result :=
+  SOk (mk_gstate (depth s) (awaiting s) (flags s) (handlers s) (nry s) (kc s) ([] :: fcs s)).
+(* for key in Awaiting.found_cycles_stack.pop(): Awaiting.known_cycles.pop(key, None) *)
+Definition pop_cycles_frame (s : gstate) : step_result :=
+  match fcs s with
+  | [] => SRaise EIndex s
+  | l :: r => SOk (mk_gstate (depth s) (awaiting s) (flags s) (handlers s) (nry s)
+                             (filter (fun k => negb (existsb (N.eqb k) l)) (kc s)) r)
+  end.
+(* remember_cycle(d): if found_cycles_stack and id(d) not in known_cycles: known_cycles[id(d)] = d; found_cycles_stack[-1].append(id(d)) *)
+Definition remember_cycle (d : N) (s : gstate) : gstate :=
+  match fcs s with
+  | [] => s
+  | l :: r => if kc_mem d s then s
+              else mk_gstate (depth s) (awaiting s) (flags s) (handlers s) (nry s) (d :: kc s) ((l ++ [d])%list :: r)
+  end.
 Definition push_awaiting (d : N) (s : gstate) : step_result :=
-  SOk (mk_gstate (depth s) (d :: awaiting s) (flags s) (handlers s) (nry s)).
+  SOk (mk_gstate (depth s) (d :: awaiting s) (flags s) (handlers s) (nry s) (kc s) (fcs s)).
 (* assert Awaiting.awaiting_stack.pop() is self.deferred : the pop happens, then the comparison *)
 Definition pop_assert_awaiting (d : N) (s : gstate) : step_result :=
   match awaiting s with
   | [] => SRaise EIndex s
-  | top :: rest => let s' := mk_gstate (depth s) rest (flags s) (handlers s) (nry s) in
+  | top :: rest => let s' := mk_gstate (depth s) rest (flags s) (handlers s) (nry s) (kc s) (fcs s) in
                    if N.eqb top d then SOk s' else SRaise EAssertion s'
   end.
 Definition push_handler (h : N) (s : gstate) : step_result :=
-  SOk (mk_gstate (depth s) (awaiting s) (flags s) (h :: handlers s) (nry s)).
+  SOk (mk_gstate (depth s) (awaiting s) (flags s) (h :: handlers s) (nry s) (kc s) (fcs s)).
 Definition pop_assert_handler (h : N) (s : gstate) : step_result :=
   match handlers s with
   | [] => SRaise EIndex s
-  | top :: rest => let s' := mk_gstate (depth s) (awaiting s) (flags s) rest (nry s) in
+  | top :: rest => let s' := mk_gstate (depth s) (awaiting s) (flags s) rest (nry s) (kc s) (fcs s) in
                    if N.eqb top h then SOk s' else SRaise EAssertion s'
   end.
 (* reads *)
@@ -511,7 +532,7 @@ Definition nry_mem (d : N) (s : gstate) : bool := existsb (N.eqb d) (nry s).
 Definition wait_blocked (d : N) (s : gstate) : bool := (depth s >? 0) && nry_mem d s.
 (* BaseDeferred.wait, `except NotReadyError:` inside the with:  if try_compute.depth > 0: try_compute.not_ready_yet[id(self)] = self *)
 Definition wait_record (d : N) (s : gstate) : gstate :=
-  if depth s >? 0 then mk_gstate (depth s) (awaiting s) (flags s) (handlers s) (if nry_mem d s then nry s else d :: nry s) else s.
+  if depth s >? 0 then mk_gstate (depth s) (awaiting s) (flags s) (handlers s) (if nry_mem d s then nry s else d :: nry s) (kc s) (fcs s) else s.
 """
 
 
@@ -575,10 +596,13 @@ def gen_gstate():
 
     # ---- Awaiting
     aw = find_class(dtree, "Awaiting")
-    need([src(s) for s in aw.body if not isinstance(s, ast.FunctionDef)] == ["awaiting_stack = []"], "Awaiting: class-level attributes changed")
+    need([src(s) for s in aw.body if not isinstance(s, ast.FunctionDef)] == ["awaiting_stack = []", "known_cycles = {}", "found_cycles_stack = []"],
+         "Awaiting: class-level attributes changed")
     need(sorted(n.name for n in aw.body if isinstance(n, ast.FunctionDef)) == ["__enter__", "__exit__", "__init__"], "Awaiting: methods changed")
     dump_eq(find_def(aw, "__init__"), "def __init__(self, deferred):\n    self.deferred = deferred", "Awaiting.__init__")
-    table = [("if self.deferred.is_awaiting:\n    raise DeferredCycle()", "guard_not_awaiting d"),
+    table = [("if self.deferred.is_awaiting or id(self.deferred) in Awaiting.known_cycles:\n    raise DeferredCycle()", "guard_not_awaiting d"),
+             ("Awaiting.found_cycles_stack.append([])", "push_cycles_frame"),
+             ("for key in Awaiting.found_cycles_stack.pop():\n    Awaiting.known_cycles.pop(key, None)", "pop_cycles_frame"),
              ("self.deferred.is_awaiting = True", "set_flag d true"),
              ("self.deferred.is_awaiting = False", "set_flag d false"),
              ("Awaiting.awaiting_stack.append(self.deferred)", "push_awaiting d"),
@@ -590,8 +614,14 @@ def gen_gstate():
     out += f"\n(* Awaiting.__enter__ ([d] identifies self.deferred) *)\nDefinition await_enter (d : N) (s : gstate) : step_result :=\n  {compose(effs)}.\n"
     ex = find_def(aw, "__exit__")
     need(not any(isinstance(n, ast.Return) for n in ast.walk(ex)), "Awaiting.__exit__ returns a value (it must return None = never swallow)")
-    effs = effects_of(ex.body, table[:5], "Awaiting.__exit__")
+    effs = effects_of(ex.body, table[:7], "Awaiting.__exit__")
     out += f"\n(* Awaiting.__exit__: returns None, i.e. never swallows *)\nDefinition await_exit (d : N) (s : gstate) : step_result :=\n  {compose(effs)}.\n"
+    dump_eq(find_def(dtree, "remember_cycle"), """
+def remember_cycle(deferred):
+    if Awaiting.found_cycles_stack and isinstance(deferred, BaseDeferred) and id(deferred) not in Awaiting.known_cycles:
+        Awaiting.known_cycles[id(deferred)] = deferred
+        Awaiting.found_cycles_stack[-1].append(id(deferred))
+""", "remember_cycle (prelude: remember_cycle)")
     # the flag starts False on every deferred object, BaseDeferred.wait is the only user
     bd = find_class(dtree, "BaseDeferred")
     init = find_def(bd, "__init__")
@@ -645,7 +675,7 @@ def wait(self):
 # usage scan
 MUTATORS = {"append", "extend", "insert", "pop", "remove", "clear", "update", "setdefault", "add", "discard", "sort", "reverse",
             "popitem", "__setitem__", "__delitem__", "appendleft", "popleft"}
-STATE_ATTRS = {"depth", "not_ready_yet", "awaiting_stack", "handlers_stack", "is_awaiting", "is_error_condition"}
+STATE_ATTRS = {"depth", "not_ready_yet", "known_cycles", "found_cycles_stack", "awaiting_stack", "handlers_stack", "is_awaiting", "is_error_condition"}
 CM_CLASSES = {"TryCompute": "deferred", "Awaiting": "deferred", "handle_reports": "reports"}
 
 # writers of module-level objects that run at import time only (checked: every reference to them is at module level)
@@ -666,6 +696,11 @@ STATE_WRITERS = {
     ("deferred", "BaseDeferred.wait", "try_compute.not_ready_yet[id(self)] = self"),
     ("deferred", "Awaiting.__enter__", "Awaiting.awaiting_stack.append(self.deferred)"),
     ("deferred", "Awaiting.__exit__", "Awaiting.awaiting_stack.pop()"),
+    ("deferred", "Awaiting.__enter__", "Awaiting.found_cycles_stack.append([])"),
+    ("deferred", "Awaiting.__exit__", "Awaiting.found_cycles_stack.pop()"),
+    ("deferred", "Awaiting.__exit__", "Awaiting.known_cycles.pop(key, None)"),
+    ("deferred", "remember_cycle", "Awaiting.known_cycles[id(deferred)] = deferred"),
+    ("deferred", "remember_cycle", "Awaiting.found_cycles_stack[-1].append(id(deferred))"),
     ("reports", "handle_reports.__enter__", "self.handlers_stack.append(self)"),
     ("reports", "handle_reports.__exit__", "self.handlers_stack.pop()"),
     ("deferred", "Deferred.__init__", "Deferred.next_instance_id += 1"),
@@ -885,6 +920,9 @@ def usage_scan():
         ("deferred", "TryCompute.__enter__", "self.not_ready_yet"),
         ("deferred", "BaseDeferred.wait", "try_compute.depth"), ("deferred", "BaseDeferred.wait", "try_compute.not_ready_yet"),
         ("deferred", "Awaiting.__enter__", "Awaiting.awaiting_stack"), ("deferred", "Awaiting.__exit__", "Awaiting.awaiting_stack"),
+        ("deferred", "Awaiting.__enter__", "Awaiting.known_cycles"), ("deferred", "Awaiting.__exit__", "Awaiting.known_cycles"),
+        ("deferred", "Awaiting.__enter__", "Awaiting.found_cycles_stack"), ("deferred", "Awaiting.__exit__", "Awaiting.found_cycles_stack"),
+        ("deferred", "remember_cycle", "Awaiting.known_cycles"), ("deferred", "remember_cycle", "Awaiting.found_cycles_stack"),
         ("deferred", "Awaiting.__enter__", "self.deferred.is_awaiting"), ("deferred", "Awaiting.__exit__", "self.deferred.is_awaiting"),
         ("deferred", "BaseDeferred.__init__", "self.is_awaiting"),
         ("reports", "handle_reports.__enter__", "self.handlers_stack"), ("reports", "handle_reports.__exit__", "self.handlers_stack"),
@@ -972,7 +1010,7 @@ def usage_scan():
             if isinstance(n, ast.Call) and (src(n.func) in ("Compiler", "compiler.Compiler")):
                 par = None
                 need(m == "_cli", f"usage scan: {m}.py:{n.lineno}: a Compiler is constructed outside main_cli")
-    return [f"run-time writers of module-level objects: exactly {len(STATE_WRITERS)} (the three context managers, BaseDeferred.wait's not_ready_yet entry, Deferred.__init__'s name counter);",
+    return [f"run-time writers of module-level objects: exactly {len(STATE_WRITERS)} (the three context managers, BaseDeferred.wait's not_ready_yet entry, remember_cycle, Deferred.__init__'s name counter);",
             f"per-Compiler state (instance attributes set in Compiler.__init__, one Compiler per run of main_cli, no class-level data): {', '.join(per_compiler)};",
             "Deferred.next_instance_id feeds only the default name of a deferred object; deferred.py reads names only in __repr__;",
             f"import-time registrars {sorted(f for _, f in IMPORT_TIME_FUNCS)} referenced {len(refs_ok)} times, always at module level;",
